@@ -134,8 +134,8 @@ DnsResponse(d) ==
   /\ Live /\ Idle
   /\ nops' = nops + 1
   /\ UNCHANGED <<sa, ac, acomp, bl, ech, h3, hosts, cur, pc>>
-  /\ Emit(<<[k |-> "dns", ans |-> Dns[d], msg |-> 1],
-            [k |-> "dnshook", ans |-> [i \in 1..Len(Dns[d]) |-> StripOne(Dns[d][i])], msg |-> 1, exc |-> ""]>>)
+  /\ Emit(<<[k |-> "dns", ans |-> Dns[d], msg |-> 1, addech |-> FALSE],
+            [k |-> "dnshook", ans |-> [i \in 1..Len(Dns[d]) |-> StripOne(Dns[d][i])], msg |-> 1, addech |-> FALSE, exc |-> ""]>>)
 
 Next == \/ \E o \in AllBool, b \in BOOLEAN : SetBool(o, b)
         \/ \E i \in 1..Len(StickyVals) : SetSticky(i)
